@@ -6,6 +6,7 @@ import (
 	"net/http"
 	"strings"
 	"sync"
+	"time"
 )
 
 // IPHashStrategy implements an IP hash load balancing strategy.
@@ -32,8 +33,9 @@ func (iph *IPHashStrategy) NextBackend(r *http.Request) *Backend {
 
 	// Get healthy backends
 	healthyBackends := make([]*Backend, 0)
+	now := time.Now()
 	for _, b := range iph.backends {
-		if b.IsHealthy {
+		if b.eligible(now) {
 			healthyBackends = append(healthyBackends, b)
 		}
 	}
